@@ -40,7 +40,7 @@ impl KnownFindings {
     /// id of the open finding this violation is an instance of
     pub fn matches(&self, v: &Violation) -> Option<String> {
         for f in &self.findings {
-            if f.status != "open" || f.property != v.property || f.kind != v.kind || f.site != v.site {
+            if f.status != "open" || f.property != v.property || f.kind != v.kind || !f.site.split('|').any(|x| x == v.site) {
                 continue;
             }
             if f.where_.iter().all(|(k, val)| v.facts.get(k) == Some(val)) {
